@@ -306,8 +306,10 @@ static bool is_valid_ptr(
     const void* ptr,
     uint64_t ptr_size)  // ptr_size can be 64bit even in 32bit systems.
 {
+  // The test must not compute ptr + ptr_size, which can wrap around for
+  // offsets and sizes taken from a malformed file.
   return ptr >= base && ptr_size <= size &&
-         ((char*) ptr) + ptr_size <= ((char*) base) + size;
+         (size_t) (((const char*) ptr) - ((const char*) base)) <= size - ptr_size;
 }
 
 #define IS_VALID_PTR(base, size, ptr) \
